@@ -10,8 +10,13 @@ buffered file is justified by `RaBuf.run_refines_flat` (every history of seek / 
 does on a healthy file) / a loop ran out of fuel.
 
 Bottom primitives (hand-written here; everything above them is generated):
-`seek`, `seekEnd`, `seekCur`, `seekPosition`, `readU8`, `readU64Le`, `writeU64Le`, `writeZero`, `readVu64`,
-`writeVu64`, `writeBytes` (`write_all`), `readBytes` (`read_exact_maybeslice`).
+`seek`, `seekEnd`, `seekCur`, `seekBack`, `seekPosition`, `readU8`, `writeU8`, `readU64Le`, `writeU64Le`, `writeZero`,
+`readVu64`, `writeVu64`, `writeBytes` (`write_all`), `readBytes` (`read_exact_maybeslice`).
+
+`readU8` / `readU64Le` (the `SmallRead` fast paths `read_u8`, `read_u64_le`) do **not** fail at the end of the
+file: they do not look at it (`RaBuf.readSmall`), what they find beyond it is the zero padding of the chunk.
+The hash-table file relies on that: `write_key_piece_offset` reads the bitmap byte before it exists in a table
+of fewer than 8 buckets, `next_key_piece_offset` reads 8 bitmap bytes from any byte of the bitmap.
 -/
 namespace Abyss.FileM
 
@@ -56,14 +61,32 @@ def seekCur (n : Nat) : M Nat := fun s => seek (s.pos + n) s
 /-- `stream_position()` -/
 def seekPosition : M Nat := fun s => some (s.pos, s)
 
+/-- `seek(SeekFrom::Current(-n))`: rabuf computes `pos - n` (an underflow is a panic / a wrap-around:
+failure), then the same tail as `Start` -/
+def seekBack (n : Nat) : M Nat := fun s => if n ≤ s.pos then seek (s.pos - n) s else none
+
+/-- the `SmallRead` fast paths of rabuf (`read_u8`, `read_u64_le`) for an item of `n` bytes (`RaBuf.readSmall`):
+the item is taken out of the chunk of the cursor without a look at the end of the file; beyond the end the chunk
+holds its zero padding (`Chunk::new`: "zero fill"; nothing stale: the files of this crate do not shrink), and the
+cursor passes the end (the callers seek before they write).  Inside the file this is `readBytes n`.
+Not modelled (failure): a cursor that is already beyond the end. -/
+def readPad (n : Nat) : M (List Nat) := fun s =>
+  if s.pos ≤ s.bytes.length then
+    let bs := (s.bytes.drop s.pos).take n
+    some (bs ++ List.replicate (n - bs.length) 0, { s with pos := s.pos + n })
+  else none
+
 /-- `read_u8` -/
 def readU8 : M Nat := do
-  let bs ← readBytes 1
+  let bs ← readPad 1
   pure (bs.headD 0)
+
+/-- `write_u8` (the value is a `u8`) -/
+def writeU8 (v : Nat) : M Unit := writeBytes [v % 256]
 
 /-- `read_u64_le` -/
 def readU64Le : M Nat := do
-  let bs ← readBytes 8
+  let bs ← readPad 8
   pure (Vu64.ofLeBytes bs)
 
 /-- `write_u64_le` -/
